@@ -6,6 +6,8 @@
 package main
 
 import (
+	"runtime/debug"
+
 	"bytes"
 	"encoding/binary"
 	"encoding/json"
@@ -28,6 +30,7 @@ import (
 
 	"verif/engine/ev"
 	"verif/engine/explore"
+	"verif/engine/guard"
 )
 
 const portID = 4242
@@ -526,6 +529,8 @@ func checkReceive(r reporter, tier string) (evals, nontrivial int64) {
 
 // shortNetlink hands arbitrary buffers straight to the parser (the audit
 // message parser's own length guard).
+var parserRegion *guard.Region
+
 type shortNetlink struct{ b []byte }
 
 func (s *shortNetlink) Send(syscall.NetlinkMessage) (uint32, error) { return 0, nil }
@@ -551,6 +556,19 @@ func checkParser(r reporter) (evals, nontrivial int64) {
 			}
 			if pat < len(lens) && lens[pat] >= 0 && n >= 4 {
 				binary.LittleEndian.PutUint32(b, uint32(lens[pat]))
+			}
+			// every third case: the buffer ends / starts on a page boundary next to an inaccessible page
+			if parserRegion == nil {
+				parserRegion, _ = guard.New(4096)
+			}
+			if parserRegion != nil {
+				switch pat % 3 {
+				case 1:
+					b = parserRegion.AtEnd(b)
+				case 2:
+					b = parserRegion.AtStart(b)
+				}
+				debug.SetPanicOnFault(true)
 			}
 			ac := &libaudit.AuditClient{Netlink: &shortNetlink{b: b}}
 			var m *libaudit.RawAuditMessage
